@@ -49,6 +49,7 @@ func (s biSpec) class() string {
 }
 
 type biCase struct {
+	idx   int
 	key   string
 	spec  biSpec
 	id1   string
@@ -188,7 +189,7 @@ func bisyncCases(run *harness.Run, n int) {
 			continue
 		}
 		r := run.Rand(key + "/spec")
-		c := &biCase{key: key, id1: mkID(6, r), id2: zeroID, newID: mkID(9, r)}
+		c := &biCase{idx: i, key: key, id1: mkID(6, r), id2: zeroID, newID: mkID(9, r)}
 		c.spec = biSpec{OldMode: modes[i%3], Units: 1 + r.Intn(6), FlushWait: r.Intn(2) == 0, Resync: r.Intn(4) == 0, Failover: r.Intn(4) == 0,
 			Base: int64(1000 + r.Intn(1_000_000))}
 		for k := r.Intn(3); k > 0; k-- {
@@ -284,8 +285,8 @@ func oneSwitch(run *harness.Run, c *biCase, old, nm config.ReplayMode, rep int) 
 		Extra: map[string]any{"old_mode": string(old), "new_mode": string(nm)}}
 	sweepOp(run, cc, lg, m)
 	sampleOnce(run, cc, lg)
-	// thorough tier only: every step costs the standalone client's reconnect back-off (≈ 1.5 s)
-	if rep == 0 && opErr == nil && !run.Quick() {
+	// thorough tier only, one state in eight: every step costs the standalone client's reconnect back-off (≈ 1.5 s)
+	if rep == 0 && opErr == nil && !run.Quick() && c.idx%8 == 0 {
 		lostReplySwitch(run, cc, c, lg, m)
 	}
 	return true
